@@ -121,6 +121,11 @@ check("C25", "Hypothesis (Python server) and proptest (Rust client, through the 
       "End-to-end histories through DummyVM (the part of the statement about inputs receiving their own results) are not driven: its error paths call process::exit and each session needs a Python subprocess; only the framing layer on both sides is checked.",
       "DESIGN.md §3 C25", engine="pyhyp")
 
+check("C28", "stateful model-based property test: edit histories applied in lock-step to an in-process language server and to a client-side document model",
+      "Per document a didOpen and up to 12 didChange notifications (0-3 changes each: inserts, deletes, replaces at UTF-16 positions incl. past-end-of-line and end-of-text, whole-document changes, empty change lists) over text with ASCII, BMP multi-byte and astral characters are dispatched to an in-process els::Server; after every notification VFS.read of the document must equal the model's text, and dispatch must not panic or err.",
+      "One server per worker process, a fresh URI per history; \\n line ends only; the model clamps past-EOL columns to EOL as the LSP specification says.",
+      "DESIGN.md §3 C28")
+
 NOT_APPLICABLE = {}
 
 def main():
